@@ -174,13 +174,21 @@ class StandardNode(Node):
 
         output_feed = run(model, input_feed)
 
-        results = {
-            scope.var[str(name)]._which_output: unwrap_feed(
-                scope.var[str(name)].unwrap_type(), result
-            ).value
-            for name, result in output_feed.items()
-        }
-        return {k: v for k, v in results.items() if k is not None}
+        results: Dict[str, PropValueType] = {}
+        for name, result in output_feed.items():
+            # The backend is third-party code: whatever it hands back (unknown names,
+            # values that do not fit the inferred type) must not fail the constructor.
+            try:
+                var = scope.var[str(name)]
+                if var._op is not self:
+                    continue  # not an output of this node
+                key = var._which_output
+                if key is not None:
+                    results[key] = unwrap_feed(var.unwrap_type(), result).value
+            except Exception:
+                if _value_prop.VALUE_PROP_STRICT_CHECK:
+                    raise
+        return results
 
     def infer_output_types(self) -> Dict[str, Type]:
         return self.infer_output_types_onnx()
